@@ -238,3 +238,28 @@ def anchoring(ctx):
         ctx.stmt_guard('C06.r5', F, [c], 'false' if c[2] == 'Ne' else 'true', use, unconditional=False,
                        gname='cached_check_point_number + cached.len() %s next_cached_check_point_number' % ('!=' if c[2] == 'Ne' else '=='))
         ctx.ob('C06.r5', F.name, 'cached hashes authenticate filters only when the whole interval up to the next check point is cached', True, at=c[5].span)
+    # F28: the cached hashes are supplied by single peers and are tied to finalized values only at the two ends of the interval
+    # (the parent check point and the hash AT the next check point).  A prefix of the interval verified against them is therefore
+    # authenticated only once the verified chain reaches the next check point — or if the cached hashes themselves were agreed by
+    # the quorum.  Structural form: on the cached branch the accepting sinks are guarded by a comparison of the batch extent
+    # (start_number / limit / number of filters) with the next check point number, or get_cached_block_filter_hashes is fed from a
+    # quorum (required_peers_count) computation.
+    sinks = [(b, t.span, 'Storage::add_matched_blocks') for b, t in P.call_sites(F, 'Storage::add_matched_blocks')] + \
+            [(b, t.span, 'update_min_filtered_block_number') for b, t in P.call_sites(F, 'FilterProtocol::update_min_filtered_block_number')]
+    def far(x):
+        return {o[1] for o in du.origins(x, stop_at_calls=False) if o[0] == 'call'}
+    extent = []
+    for c in ctx.cmp_stmts(F):
+        a, b = far(c[3]), far(c[4])
+        for x, y in ((a, b), (b, a)):
+            is_next_cp = 'Peers::calc_check_point_number' in x and 'Peers::get_cached_block_filter_hashes' in x and 'Vec::len' not in x
+            is_extent = any(k.endswith('BlockFilters::start_number') for k in y) and (any(k.endswith('cmp::min') or k.endswith('BytesVec::len') for k in y))
+            if is_next_cp and is_extent:
+                extent.append(c)
+    U = ctx.body('Peers::update_cached_block_filter_hashes')
+    quorum = 'Peers::required_peers_count' in P.transitive_callees('BlockFilterHashesProcess::execute') and \
+        any(k == 'Peers::required_peers_count' for _, k, _ in P.call_keys(ctx.body('BlockFilterHashesProcess::execute')))
+    ctx.ob('C06.r5', F.name, 'a prefix verified against cached (single-peer) hashes is accepted only when the verified chain reaches the next finalized check point, or the cached hashes are quorum-agreed',
+           bool(extent) or quorum, at=sinks[0][1] if sinks else None,
+           detail=None if (extent or quorum) else 'intermediate cached hashes are peer-chosen; BlockFilters for a prefix of the interval advance the filtered height although nothing ties the prefix to the next check point')
+
